@@ -205,6 +205,34 @@ class NcchCheck(Check):
                 self.reparse(rd, desc, info, img, eng, e, mon)
                 if mon and key is None:
                     key = 'ncch.full.reparse'
+            # the same container through a reader created with load_sections=False (no nested ExeFS / RomFS readers are built, so
+            # whatever the section views need has to be set up when they are first used): same bytes, in any order of first use
+            if case['seed'] % 3 == 1 and not mon:
+                info_d['second reader with load_sections=False'] = 1
+                try:
+                    b2 = io.BytesIO(file_bytes)
+                    b2.seek(start)
+                    rd2 = NCCHReader(b2, crypto=e.CryptoEngine(), seed=seed_arg, assume_decrypted=assume, closefd=False, load_sections=False)
+                    order = list(todo)
+                    Rng(case['seed'] + 9).shuffle(order)
+                    for name, num in order:
+                        plain = ncchbuild.decrypted_image(img, info, desc) if name == 'full' else info['plain'][name]
+                        if name == 'full' and desc['no_crypto']:
+                            plain = img
+                        try:
+                            d2 = rd2.open_raw_section(NCCHSection(num)).read()
+                        except Exception as ex_:  # noqa
+                            mon.append(f'load_sections=False: the {name} view raised {exc_name(ex_)}')
+                            key = f'ncch.{name}.lazy'
+                            break
+                        if d2 != plain:
+                            mon.append(f'load_sections=False: the {name} view differs from the plaintext')
+                            key = f'ncch.{name}.lazy'
+                            break
+                    rd2.close()
+                except Exception as ex_:  # noqa
+                    mon.append(f'load_sections=False: constructing the reader raised {exc_name(ex_)}')
+                    key = 'ncch.init'
         real = ' | '.join(outs)
         model = ' | '.join(models)
         return CaseResult(real, model, mon, sig=str(hash(real)), key=key, info=info_d)
